@@ -38,7 +38,7 @@
 (* conf = [backoff, eb, ra, cli, ina]: watching.reconnect_backoff,         *)
 (* networking.error_backoffs (a sequence), the Retry-After the server      *)
 (* sends with a "429ra", watching.client_timeout, watching.inactivity_     *)
-(* timeout (0 = not configured).  A never-changing variable, so that one   *)
+(* timeout (0 = not configured), limit: queueing.worker_limit (0 = none).  A never-changing variable, so that one   *)
 (* TLC run validates traces of many configurations.                        *)
 (***************************************************************************)
 EXTENDS Naturals, Sequences, FiniteSets, TLC
@@ -162,7 +162,8 @@ Exit == /\ pc \in {"cancelled", "dead"} /\ pc' = "exited"
 Urgent == \/ CallDue
           \/ pc \in {"open", "stream"} /\ InaT > 0 /\ now >= act + InaT
           \/ mustclose # {}
-          \/ pend # <<>> /\ pc \notin {"cancelled", "exited"}
+          \* (with a worker limit the watcher can be held in scheduler.spawn while events queue up: the hand-over is prompt only without one)
+          \/ pend # <<>> /\ pc \notin {"cancelled", "exited"} /\ conf.limit = 0
           \/ Paused /\ ~noticed /\ InBlock
 Tick == /\ now < Horizon /\ ~Urgent /\ now' = now + 1 /\ fresh' = FALSE /\ UNCHANGED <<conf, kvars, blockers>>
 
